@@ -23,7 +23,10 @@ func c17path(r *rand.Rand, root reflect.Value) (data.Path, string, bool) {
 			p, how = data.NilPaths[r.Intn(len(data.NilPaths))], "through-nil"
 		case k == 1:
 			// an unhashable key for a map with interface keys: evaluating it raises a Go runtime error
-			p = data.Path{Steps: []data.Step{{Kind: data.SField, Name: "MapAny"}, {Kind: data.SIndex, Index: data.VarRef([]string{"kslice", "kstruct"}[r.Intn(2)])}}}
+			p = data.Path{Steps: []data.Step{{Kind: data.SField, Name: "MapAny"}, {Kind: data.SIndex, Index: data.VarRef([]string{"kslice", "kstruct", "kdyn"}[r.Intn(3)])}}}
+			if r.Intn(4) == 0 {
+				p = data.Path{Steps: []data.Step{{Kind: data.SField, Name: "MapPair"}, {Kind: data.SIndex, Index: data.VarRef("kpair")}}}
+			}
 			how = "unhashable-key"
 		case k == 2:
 			// an index written as an arithmetic expression: valid, or raising a Go runtime error (integer division by zero)
